@@ -31,9 +31,24 @@ def parseEnv (s : String) : Option (Env × Option PK) :=
     else none
   | _ => none
 
-/-- the harness's unmarshaler: fails on an empty payload or a leading 0xff. -/
+/-- the harness's unmarshaler: (field, value) byte pairs stored into a map; fails on an empty
+    payload, a field byte 0xff or a trailing single byte. The content handed to the receiver is
+    the canonical (sorted by field, last value wins) pair list of THIS payload. -/
+def decodePairs : List UInt8 → Option (List (UInt8 × UInt8))
+  | [] => some []
+  | [_] => none
+  | k :: v :: rest => if k = 0xff then none else (decodePairs rest).map ((k, v) :: ·)
+
+def insertPair (p : UInt8 × UInt8) : List (UInt8 × UInt8) → List (UInt8 × UInt8)
+  | [] => [p]
+  | q :: qs => if q.1 < p.1 then q :: insertPair p qs else if q.1 = p.1 then p :: qs else p :: q :: qs
+
 def decodePayload (_ : String) (p : String) : Option String :=
-  if p = "~" || p.startsWith "ff" then none else some p
+  if p = "~" then none else do
+    let bytes ← parseHex p
+    let pairs ← decodePairs bytes
+    let canon := pairs.foldl (fun acc q => insertPair q acc) []
+    pure (if canon.isEmpty then "~" else showHex (canon.flatMap fun (k, v) => [k, v]))
 
 def mkLib (reg : List String) (table : List (String × Option PK)) : C18.Lib String PK String String String :=
   { registered := fun t => reg.contains t
@@ -76,6 +91,14 @@ def monitor (op obs : String) : String :=
   | some (L, es) =>
     match (splitList obs).mapM parseOutcome with
     | none => "FAIL unparsable-observation"
-    | some os => if C18.holds L es os then "ok" else "FAIL sender-binding"
+    | some os =>
+      if C18.holds L es os then "ok"
+      else if (es.zip os).any (fun (e, o) => match o with
+          | some d => !C18.holds1 L e (some d) &&
+              (match L.decodePayload e.typ e.payload with
+               | some p => C18.holds1 L e (some { d with payload := p })
+               | none => false)
+          | none => false) then "FAIL delivered-content-is-not-what-the-author-sent"
+      else "FAIL sender-binding"
 
 def main (args : List String) : IO UInt32 := driverMain model monitor args
